@@ -1,4 +1,4 @@
-from sa.selftest.harness import M, T
+from sa.selftest.harness import M, T, Variant
 
 A = "sharepoint2text/parsing/extractors/archive_extractor.py"
 S = "sharepoint2text/parsing/extractors/util/sevenzip.py"
@@ -21,6 +21,7 @@ MUTANTS = [
     M("rtf-footnote-blank-overlap", "sharepoint2text/parsing/extractors/ms_legacy/rtf_extractor.py", "    r\"\\{\\\\footnote([^{}]*(?:", "    r\"\\{\\\\footnote\\s*([^{}]*(?:", "C12-REGEX"),
 ]
 TWINS = [
+    T("7z-limit-by-presence-helper", "sharepoint2text/parsing/extractors/util/sevenzip.py", "        max_length = unpack_sizes[-1] if unpack_sizes else -1\n", "        max_length = -1 if not unpack_sizes else unpack_sizes[-1]\n"),
     T("rtf-footnote-one-blank", "sharepoint2text/parsing/extractors/ms_legacy/rtf_extractor.py", "    r\"\\{\\\\footnote([^{}]*(?:", "    r\"\\{\\\\footnote\\b([^{}]*(?:"),
     T("limit-compare-flipped", I, "        if file_size > max_file_size:", "        if max_file_size < file_size:"),
     T("count-check-flipped", S, "        if num_files > self._remaining():", "        if self._remaining() < num_files:"),
